@@ -90,3 +90,11 @@ Proof. intros; unfold atan2; destruct (Rlt_dec 0 x); [lra|]. destruct (Rlt_dec x
 Lemma atan2_zero_zero y x : x = 0 -> y = 0 -> atan2 y x = 0.
 Proof. intros; unfold atan2; destruct (Rlt_dec 0 x); [lra|]. destruct (Rlt_dec x 0); [lra|].
   destruct (Rlt_dec 0 y); [lra|]. destruct (Rlt_dec y 0); [lra|reflexivity]. Qed.
+
+(** acos in terms of atan (Interval has no acos primitive) *)
+Lemma acos_atan x : -1 < x < 1 -> acos x = PI / 2 - atan (x / sqrt (1 - x * x)).
+Proof.
+  intros [H1 H2]. unfold acos, asin.
+  destruct (Rle_dec x (-1)) as [L|L]; [lra|]. destruct (Rle_dec 1 x) as [L'|L']; [lra|].
+  unfold Rsqr. reflexivity.
+Qed.
